@@ -238,6 +238,22 @@ class Roles:
             stop -= set(self.helpers)       # a leg producer's region includes its own helpers
         return Region(self, root, depth, stop=stop | set(extra_stop), arg_depth=arg_depth)
 
+    def merge_site(self):
+        """the body that folds one line into its neighbour: the canonicaliser itself, or the helper / closure of its region
+        (depth 2) that holds the Decimal `+=` accumulations — extracting the merge arm into `fn absorb(current, next) -> bool`
+        must not lose the anchor"""
+        from mir import is_decimal_arith_assign
+        c = self.require("canon")
+
+        def has(b):
+            return any(is_decimal_arith_assign(t["callee"]) == "AddAssign" for _, t in b.calls())
+        if has(c):
+            return c
+        for b in self.region(c).bodies.values():
+            if b.id != c.id and has(b):
+                return b
+        return c
+
     def require(self, name):
         v = getattr(self, name)
         if v is None:
@@ -295,6 +311,26 @@ class Roles:
                     tb = tb or self.terms(b)
                     val = tb.operand(rv["ops"][rv["fields"].index(field)])
                     out.append((b, i, "construct", b.loc(s["sp"]), val))
+        return out
+
+    def partial_restatements(self, adt, size_fields, counters, bodies=None):
+        """[(body, site, written, missing)] for every function that re-writes the SIZE of a lot-like record (a write to one of
+        `size_fields` other than its construction) without re-writing every share counter booked against it (`counters`):
+        size and counters are in the same unit, so restating one of them alone changes what `size − counters` says is held"""
+        out = []
+        per = {}
+        for f in list(size_fields) + list(counters):
+            for w in self.field_writes(adt, f, bodies):
+                if w[2] == "construct":
+                    continue
+                per.setdefault(w[0].id, {}).setdefault(f, []).append(w)
+        for bid, fw in per.items():
+            if not any(f in fw for f in size_fields):
+                continue
+            missing = [f for f in list(size_fields) + list(counters) if f not in fw]
+            w0 = next(fw[f][0] for f in size_fields if f in fw)
+            if missing:
+                out.append((w0[0], w0[3], sorted(fw), missing))
         return out
 
     def _param_root(self, b, p, depth=0):
@@ -697,6 +733,18 @@ def guards_of(b, tb, bb):
         for cond, kind, cid in p.guards:
             out.append((cond, "1", ("pipeline", kind)))
     return out
+
+
+def eq_guard(cond, val):
+    """(lhs, rhs) when passing this switch edge establishes lhs == rhs: the true edge of `==` or the false edge of `!=`;
+    a disjunction of `!=` tests left on its false edge (`if a != b || c != d { return }`) yields each equality in turn
+    because MIR lowers `||` to one switch per operand"""
+    if isinstance(cond, tuple) and cond and cond[0] == "cmp":
+        if cond[1] == "Eq" and truth(val):
+            return cond[2], cond[3]
+        if cond[1] == "Ne" and not truth(val):
+            return cond[2], cond[3]
+    return None
 
 
 def truth(val):
